@@ -429,7 +429,8 @@ def plan(ck: Check):
     #            world      universe      length quick/thorough   configurations
     A, N_ = True, False  # auto_reload on / off
     table = [
-        ("dict", "namespaces", 4, 5, [(True, A, 1, 0), (True, A, 2, 0), (True, N_, 2, 0)]),
+        ("dict", "namespaces", 4, 5, [(True, A, 1, 0), (True, N_, 2, 0)]),
+        ("dict", "namespaces", 4, 4, [(True, A, 2, 0)]),
         ("dict", "namespaces", 3, 4, [(True, A, 3, 0), (True, A, 4, 0)]),
         ("dict", "namespaces", 3, 4, [(True, N_, 1, 0), (True, N_, 3, 0), (True, N_, 4, 0)]),
         ("dict", "globals", 4, 5, [(False, A, 2, 0)]),
